@@ -403,18 +403,18 @@ Qed.
 (* ------------------------------------------------------------------------------------------ *)
 (** * (c) GRAPH ?g                                                                             *)
 (* ------------------------------------------------------------------------------------------ *)
-Definition chain_of (ls : list (list sol)) : iter :=
-  fold_right (fun l acc => IChain (ILeaf l) acc) IEmpty ls.
+Definition chain_of (ls : list (N * list jsol)) : iter :=
+  fold_right (fun gl acc => IChain (IJoin (fst gl) (snd gl)) acc) IEmpty ls.
 Fixpoint iter_items (it : iter) : list sol :=
   match it with
   | IEmpty => []
-  | ILeaf l => l
+  | IJoin g l => join_all g l
   | IChain a b => iter_items a ++ iter_items b
-  | IFlat ls => concat ls
+  | IFlat ls => flat_map (fun gl => join_all (fst gl) (snd gl)) ls
   end.
 
 Lemma graph_rec_res sel dsel : forall names,
-  res (graph_rec_c sel dsel names) = chain_of (map sel names).
+  res (graph_rec_c sel dsel names) = chain_of (map (fun g => (g, sel g)) names).
 Proof.
   induction names as [|g r IH]; [reflexivity|].
   cbn [graph_rec_c]. rewrite res_call, !res_bind, res_ret, IH. reflexivity.
@@ -433,14 +433,15 @@ Proof.
   unfold select_c at 1. unfold depth at 1. cbn [snd]. lia.
 Qed.
 Lemma graph_loop_body_spec sel dsel : forall names,
-  res (graph_loop_body sel dsel names) = map sel names /\
+  res (graph_loop_body sel dsel names) = map (fun g => (g, sel g)) names /\
   (depth (graph_loop_body sel dsel names) <= dsel)%nat.
 Proof.
   induction names as [|g r [I1 I2]]; [cbn; split; [reflexivity|lia]|].
   cbn [graph_loop_body map]. rewrite !res_bind, !depth_bind, res_ret, depth_ret, I1.
   split; [reflexivity|]. unfold select_c at 1. unfold depth at 1. cbn [snd]. lia.
 Qed.
-Lemma graph_loop_res sel dsel names : res (graph_loop_c sel dsel names) = IFlat (map sel names).
+Lemma graph_loop_res sel dsel names :
+  res (graph_loop_c sel dsel names) = IFlat (map (fun g => (g, sel g)) names).
 Proof.
   unfold graph_loop_c. rewrite res_call, res_bind, res_ret.
   destruct (graph_loop_body_spec sel dsel names) as [H _]. rewrite H. reflexivity.
@@ -451,43 +452,60 @@ Proof.
   destruct (graph_loop_body_spec sel dsel names) as [_ H]. lia.
 Qed.
 
+(* FilterMap::next *)
+Lemma join_next_spec g : forall l,
+  (depth (join_next_c g l) <= 1)%nat /\
+  let '(x, l') := res (join_next_c g l) in
+  match x with
+  | Some s => join_all g l = s :: join_all g l' /\ (length l' < length l)%nat
+  | None => join_all g l = [] /\ l' = []
+  end.
+Proof.
+  induction l as [|j r [IH1 IH2]]; [cbn; split; [lia|auto]|].
+  cbn [join_next_c]. rewrite depth_bind, res_bind, depth_leaf. unfold join_all in *. cbn [flat_map].
+  destruct (join1 g j) as [s|].
+  - rewrite depth_ret, res_ret. split; [lia|]. cbn [app length]. auto.
+  - split; [lia|]. destruct (res (join_next_c g r)) as [x l']. cbn [app length].
+    destruct x; destruct IH2; split; auto; lia.
+Qed.
 (* next: what it returns, for every iterator *)
 Lemma flat_next_spec : forall ls,
   let '(x, it') := res (flat_next_c ls) in
   (exists ls', it' = IFlat ls') /\
   match x with
-  | Some s => concat ls = s :: iter_items it' /\ iter_size it' = pred (length (concat ls))
-  | None => concat ls = [] /\ iter_items it' = [] /\ iter_size it' = O
+  | Some s => iter_items (IFlat ls) = s :: iter_items it' /\ (iter_size it' < iter_size (IFlat ls))%nat
+  | None => iter_items (IFlat ls) = [] /\ iter_items it' = []
   end.
 Proof.
-  induction ls as [|l ls IH]; [cbn; split; [eexists; reflexivity|auto]|].
-  destruct l as [|x l].
-  - cbn [flat_next_c]. rewrite res_bind. exact IH.
-  - cbn [flat_next_c]. rewrite res_bind, res_ret. split; [eexists; reflexivity|].
-    cbn [concat iter_items iter_size app length pred]. auto.
+  induction ls as [|[g l] ls IH]; [cbn; split; [eexists; reflexivity|auto]|].
+  cbn [flat_next_c]. rewrite res_bind, res_call. destruct (join_next_spec g l) as [_ H].
+  destruct (res (join_next_c g l)) as [x l']. destruct x as [s|].
+  - rewrite res_ret. destruct H as [H1 H2]. split; [eexists; reflexivity|].
+    cbn [iter_items iter_size flat_map fst snd]. rewrite H1, !app_length. split; [reflexivity|lia].
+  - destruct H as [H1 H2]. destruct (res (flat_next_c ls)) as [y it'']. destruct IH as [I0 I1].
+    split; [exact I0|]. cbn [iter_items iter_size flat_map fst snd] in *. rewrite H1, app_length. cbn [app].
+    destruct y as [s|]; [destruct I1; split; [assumption|lia]|exact I1].
 Qed.
 Lemma it_next_spec : forall it,
   let '(x, it') := res (it_next_c it) in
   match x with
-  | Some s => iter_items it = s :: iter_items it' /\ iter_size it = S (iter_size it')
-  | None => iter_items it = [] /\ iter_items it' = [] /\ iter_size it = O /\ iter_size it' = O
+  | Some s => iter_items it = s :: iter_items it' /\ (iter_size it' < iter_size it)%nat
+  | None => iter_items it = [] /\ iter_items it' = []
   end.
 Proof.
-  induction it as [|l|a IHa b IHb|ls].
+  induction it as [|g l|a IHa b IHb|ls].
   - cbn. auto.
-  - destruct l as [|x l]; cbn; auto.
+  - cbn [it_next_c]. rewrite res_call, res_bind. destruct (join_next_spec g l) as [_ H].
+    destruct (res (join_next_c g l)) as [x l']. rewrite res_ret. cbn [iter_items iter_size].
+    destruct x; destruct H as [H1 H2]; [auto|subst l'; auto].
   - cbn [it_next_c]. rewrite res_call, res_bind.
     destruct (res (it_next_c a)) as [x a'] eqn:Ea. destruct x as [s|].
-    + rewrite res_ret. destruct IHa as [I1 I2]. cbn [iter_items iter_size]. rewrite I1, I2. auto.
+    + rewrite res_ret. destruct IHa as [I1 I2]. cbn [iter_items iter_size]. rewrite I1. split; [reflexivity|lia].
     + rewrite res_bind. destruct (res (it_next_c b)) as [y b'] eqn:Eb. rewrite res_ret.
-      destruct IHa as (I1 & I2 & I3 & I4). cbn [iter_items iter_size]. rewrite I1, I3.
-      destruct y as [s|]; cbn [app Nat.add]; [exact IHb|].
-      destruct IHb as (J1 & J2 & J3 & J4). auto.
+      destruct IHa as (I1 & I2). cbn [iter_items iter_size]. rewrite I1.
+      destruct y as [s|]; cbn [app Nat.add]; [destruct IHb; split; [assumption|lia]|exact IHb].
   - cbn [it_next_c]. rewrite res_call. pose proof (flat_next_spec ls) as H.
-    destruct (res (flat_next_c ls)) as [x it']. destruct H as [_ H]. destruct x as [s|].
-    + destruct H as [H1 H2]. cbn [iter_items iter_size]. rewrite H1 in *. cbn [length pred] in H2.
-      rewrite H2. auto.
-    + destruct H as (H1 & H2 & H3). cbn [iter_items iter_size]. rewrite H1. cbn [length]. auto.
+    destruct (res (flat_next_c ls)) as [x it']. destruct H as [_ H]. exact H.
 Qed.
 Lemma it_collect_res : forall fuel it, (iter_size it < fuel)%nat ->
   fst (res (it_collect_c fuel it)) = iter_items it.
@@ -501,30 +519,33 @@ Proof.
   - destruct H as (H1 & _). rewrite res_ret. cbn [fst]. symmetry. exact H1.
 Qed.
 
-(* (1) erasure: both shapes give the solutions of the graphs one after the other *)
-Theorem graph_query_erasure looped sel sel0 dsel names :
-  res (graph_query_c looped sel sel0 dsel names) = graph_query_p sel sel0 names.
+(* (1) erasure: both shapes give, graph after graph, the solutions joined with the graph name *)
+Theorem graph_query_erasure looped sel dsel names :
+  res (graph_query_c looped sel dsel names) = graph_query_p sel names.
 Proof.
   unfold graph_query_c, graph_query_p. rewrite res_bind.
   set (it := res (match names with
-                  | [] => (ILeaf sel0, dsel)
+                  | [] => ret IEmpty
                   | _ :: _ => if looped then graph_loop_c sel dsel names else graph_rec_c sel dsel names
                   end)).
   rewrite res_bind. pose proof (it_collect_res (S (iter_size it)) it ltac:(lia)) as H.
   destruct (res (it_collect_c (S (iter_size it)) it)) as [out it']. rewrite res_bind, res_ret.
   cbn [fst] in H. rewrite H. subst it. destruct names as [|g r]; [reflexivity|].
   destruct looped.
-  - rewrite graph_loop_res. reflexivity.
-  - rewrite graph_rec_res. generalize (map sel (g :: r)). clear.
-    induction l as [|x l IH]; [reflexivity|]. cbn [chain_of fold_right iter_items concat].
-    fold (chain_of l). rewrite IH. reflexivity.
+  - rewrite graph_loop_res. cbn [iter_items]. rewrite flat_map_concat_map, map_map, <- flat_map_concat_map.
+    reflexivity.
+  - rewrite graph_rec_res. generalize (g :: r). clear.
+    induction l as [|x l IH]; [reflexivity|]. cbn [map chain_of fold_right iter_items flat_map fst snd].
+    fold (chain_of (map (fun g => (g, sel g)) l)). rewrite IH. reflexivity.
 Qed.
 
-(* (2) patched: Flatten::next, consumption and drop stay within two frames *)
-Lemma flat_next_depth : forall ls, (depth (flat_next_c ls) <= 1)%nat.
+(* (2) patched: Flatten::next, consumption and drop stay within three frames
+   (Flatten::next, FilterMap::next, the boxed result of select) *)
+Lemma flat_next_depth : forall ls, (depth (flat_next_c ls) <= 2)%nat.
 Proof.
-  induction ls as [|l ls IH]; [cbn; lia|]. destruct l as [|x l]; cbn [flat_next_c];
-    rewrite depth_bind, depth_leaf; [lia|rewrite depth_ret; lia].
+  induction ls as [|[g l] ls IH]; [cbn; lia|]. cbn [flat_next_c]. rewrite depth_bind, depth_call.
+  destruct (join_next_spec g l) as [H _].
+  destruct (res (call (join_next_c g l))) as [x l']. destruct x; [rewrite depth_ret|]; lia.
 Qed.
 Lemma flat_drop_depth : forall ls, (depth (it_drop_c (IFlat ls)) <= 2)%nat.
 Proof.
@@ -532,7 +553,7 @@ Proof.
   induction ls as [|l ls IH]; [cbn; lia|]. rewrite depth_bind, depth_leaf. lia.
 Qed.
 Lemma flat_collect_depth : forall fuel ls,
-  (depth (it_collect_c fuel (IFlat ls)) <= 2)%nat /\
+  (depth (it_collect_c fuel (IFlat ls)) <= 3)%nat /\
   exists ls', snd (res (it_collect_c fuel (IFlat ls))) = IFlat ls'.
 Proof.
   induction fuel as [|f IH]; intros ls; [cbn; split; [lia|eexists; reflexivity]|].
@@ -544,47 +565,32 @@ Proof.
     cbn [snd] in *. split; [lia|eexists; exact I2].
   - rewrite depth_ret, res_ret. cbn [snd]. split; [lia|eexists; reflexivity].
 Qed.
-Lemma leaf_collect_depth : forall fuel l,
-  (depth (it_collect_c fuel (ILeaf l)) <= 1)%nat /\
-  exists l', snd (res (it_collect_c fuel (ILeaf l))) = ILeaf l'.
-Proof.
-  induction fuel as [|f IH]; intros l; [cbn; split; [lia|eexists; reflexivity]|].
-  cbn [it_collect_c]. destruct l as [|x l].
-  - cbn. split; [lia|eexists; reflexivity].
-  - cbn [it_next_c]. rewrite depth_bind, res_bind, depth_leaf, res_leaf.
-    rewrite depth_bind, res_bind. destruct (IH l) as [I1 [l' I2]].
-    destruct (res (it_collect_c f (ILeaf l))) as [out it'']. rewrite depth_ret, res_ret.
-    cbn [snd] in *. split; [lia|eexists; exact I2].
-Qed.
-Theorem graph_query_loop_depth sel sel0 dsel names :
-  (depth (graph_query_c true sel sel0 dsel names) <= 2 + dsel)%nat.
+Theorem graph_query_loop_depth sel dsel names :
+  (depth (graph_query_c true sel dsel names) <= 3 + dsel)%nat.
 Proof.
   unfold graph_query_c. rewrite depth_bind. destruct names as [|g r].
-  - change (res (ILeaf sel0, dsel)) with (ILeaf sel0). change (depth (ILeaf sel0, dsel)) with dsel.
-    rewrite depth_bind.
-    destruct (leaf_collect_depth (S (iter_size (ILeaf sel0))) sel0) as [H1 [l' H2]].
-    destruct (res (it_collect_c (S (iter_size (ILeaf sel0))) (ILeaf sel0))) as [out it'].
-    cbn [snd] in H2. subst it'. rewrite depth_bind, depth_ret. cbn [it_drop_c]. rewrite depth_leaf. lia.
+  - rewrite res_ret, depth_ret. cbn. lia.
   - pose proof (graph_loop_depth sel dsel (g :: r)) as Hc. rewrite graph_loop_res.
     rewrite depth_bind.
-    destruct (flat_collect_depth (S (iter_size (IFlat (map sel (g :: r))))) (map sel (g :: r))) as [H1 [ls' H2]].
-    destruct (res (it_collect_c (S (iter_size (IFlat (map sel (g :: r))))) (IFlat (map sel (g :: r))))) as [out it'].
+    set (ls := map (fun g0 => (g0, sel g0)) (g :: r)) in *.
+    destruct (flat_collect_depth (S (iter_size (IFlat ls))) ls) as [H1 [ls' H2]].
+    destruct (res (it_collect_c (S (iter_size (IFlat ls))) (IFlat ls))) as [out it'].
     cbn [snd] in H2. subst it'. rewrite depth_bind, depth_ret.
     pose proof (flat_drop_depth ls'). lia.
 Qed.
 
 (* (3) original: building the result already needs one frame per graph name ... *)
-Theorem graph_query_rec_depth_lower sel sel0 dsel g names :
-  (S (S (length names)) <= depth (graph_query_c false sel sel0 dsel (g :: names)))%nat.
+Theorem graph_query_rec_depth_lower sel dsel g names :
+  (S (S (length names)) <= depth (graph_query_c false sel dsel (g :: names)))%nat.
 Proof.
   unfold graph_query_c. rewrite depth_bind.
   pose proof (graph_rec_depth_lower sel dsel (g :: names)) as H. cbn [length] in H. lia.
 Qed.
 Theorem graph_rec_refuted : forall c : nat, exists names,
-  forall sel sel0 dsel, (depth (graph_query_c false sel sel0 dsel names) > c)%nat.
+  forall sel dsel, (depth (graph_query_c false sel dsel names) > c)%nat.
 Proof.
-  intros c. exists (repeat 0 (S c)). intros sel sel0 dsel. cbn [repeat].
-  pose proof (graph_query_rec_depth_lower sel sel0 dsel 0 (repeat 0 c)) as H.
+  intros c. exists (repeat 0 (S c)). intros sel dsel. cbn [repeat].
+  pose proof (graph_query_rec_depth_lower sel dsel 0 (repeat 0 c)) as H.
   rewrite repeat_length in H. lia.
 Qed.
 (* ... and so do dropping the nested Chain and asking an exhausted one for its next item *)
@@ -594,16 +600,26 @@ Proof.
   cbn [chain_of fold_right it_drop_c length]. fold (chain_of ls).
   rewrite depth_call, depth_bind, IH. cbn [it_drop_c]. rewrite depth_leaf. lia.
 Qed.
-Theorem chain_next_exhausted_depth : forall ls, Forall (fun l => l = []) ls ->
-  depth (it_next_c (chain_of ls)) = S (length ls) /\ fst (res (it_next_c (chain_of ls))) = None.
+Theorem chain_next_exhausted_depth : forall ls, Forall (fun gl => snd gl = []) ls ->
+  (S (length ls) <= depth (it_next_c (chain_of ls)) <= S (S (length ls)))%nat /\
+  fst (res (it_next_c (chain_of ls))) = None.
 Proof.
-  induction ls as [|l ls IH]; intros H; [cbn; auto|].
-  inversion H as [|? ? Hl Hls]; subst. destruct (IH Hls) as [I1 I2].
-  cbn [chain_of fold_right it_next_c length]. fold (chain_of ls).
-  rewrite depth_call, depth_bind, res_call, res_bind. cbn [it_next_c]. rewrite res_leaf, depth_leaf.
+  induction ls as [|[g l] ls IH]; intros H; [cbn; split; [lia|reflexivity]|].
+  inversion H as [|? ? Hl Hls]; subst. cbn [snd] in Hl. subst l. destruct (IH Hls) as [I1 I2].
+  cbn [chain_of fold_right length fst snd]. fold (chain_of ls).
+  assert (Ej : it_next_c (IJoin g []) = ((None, IJoin g []), 2%nat)) by reflexivity.
+  change (it_next_c (IChain (IJoin g []) (chain_of ls))) with
+    (call ('(x, a') <- it_next_c (IJoin g []) ;;
+           match x with
+           | Some s => ret (Some s, IChain a' (chain_of ls))
+           | None => '(y, b') <- it_next_c (chain_of ls) ;; ret (y, IChain IEmpty b')
+           end)).
+  rewrite Ej, depth_call, depth_bind, res_call, res_bind.
+  change (res ((@None sol, IJoin g []), 2%nat)) with (@None sol, IJoin g []).
+  change (depth ((@None sol, IJoin g []), 2%nat)) with 2%nat. cbv iota beta.
   rewrite depth_bind, res_bind.
   destruct (res (it_next_c (chain_of ls))) as [y b'] eqn:E. cbn [fst] in I2. subst y.
-  rewrite depth_ret, res_ret, I1. cbn [fst]. split; [lia|reflexivity].
+  rewrite depth_ret, res_ret. cbn [fst]. split; [lia|reflexivity].
 Qed.
 
 (* ------------------------------------------------------------------------------------------ *)
@@ -806,10 +822,10 @@ Qed.
    its size *)
 Theorem patched_depth_bounded : forall x : input, (depth_of true x <= 4 + allowance x)%nat.
 Proof.
-  intros [ms mlast rows|txt|sel sel0 dsel names|l|cells|key swt|t|t]; cbn [depth_of allowance].
+  intros [ms mlast rows|txt|sel dsel names|l|cells|key swt|t|t]; cbn [depth_of allowance].
   - pose proof (iter_all_loop_depth ms mlast rows). lia.
   - rewrite quoted_string_loop_depth. lia.
-  - pose proof (graph_query_loop_depth sel sel0 dsel names). lia.
+  - pose proof (graph_query_loop_depth sel dsel names). lia.
   - pose proof (populate_list_loop_depth l). lia.
   - rewrite mark_loop_depth. lia.
   - pose proof (find_subject_depth key swt). lia.
@@ -821,15 +837,15 @@ Qed.
 Theorem original_depth_unbounded : forall c : nat,
   (exists ms mlast rows, allowance (InIter ms mlast rows) = O /\ (depth_of false (InIter ms mlast rows) > c)%nat) /\
   (exists txt, allowance (InQuoted txt) = O /\ (depth_of false (InQuoted txt) > c)%nat) /\
-  (exists names, forall sel sel0, allowance (InGraph sel sel0 0 names) = O /\
-                                  (depth_of false (InGraph sel sel0 0 names) > c)%nat) /\
+  (exists names, forall sel, allowance (InGraph sel 0 names) = O /\
+                             (depth_of false (InGraph sel 0 names) > c)%nat) /\
   (exists l, allowance (InList l) = O /\ (depth_of false (InList l) > c)%nat) /\
   (exists cells, allowance (InMark cells) = O /\ (depth_of false (InMark cells) > c)%nat).
 Proof.
   intros c. repeat split.
   - destruct (iter_rec_refuted c) as (ms & mlast & rows & H). exists ms, mlast, rows. auto.
   - destruct (quoted_string_rec_refuted c) as (txt & H). exists txt. auto.
-  - destruct (graph_rec_refuted c) as (names & H). exists names. intros sel sel0. split; [reflexivity|apply H].
+  - destruct (graph_rec_refuted c) as (names & H). exists names. intros sel. split; [reflexivity|apply H].
   - destruct (populate_list_rec_refuted c) as (l & H1 & H2). exists l. cbn [allowance depth_of]. rewrite H1. auto.
   - destruct (mark_rec_refuted c) as (cells & H). exists cells. auto.
 Qed.
@@ -837,7 +853,7 @@ Qed.
 Theorem patches_preserve_results :
   (forall ms mlast rows, res (iter_all_c true ms mlast rows) = res (iter_all_c false ms mlast rows)) /\
   (forall txt, res (quoted_string_loop_c txt) = res (quoted_string_rec_c txt)) /\
-  (forall sel sel0 dsel names, res (graph_query_c true sel sel0 dsel names) = res (graph_query_c false sel sel0 dsel names)) /\
+  (forall sel dsel names, res (graph_query_c true sel dsel names) = res (graph_query_c false sel dsel names)) /\
   (forall l, l <> JNil -> res (pop_loop_c l) = res (pop_rec_c l)) /\
   (forall i, res (conv_loop_c i) = res (conv_rec_c i)) /\
   (forall cells, res (mark_loop_c cells) = res (mark_rec_c cells)).
